@@ -154,6 +154,18 @@ def _run(case, ctx):
         if JUDGE_GAMMA_WHEN_AREA_ALSO_GIVEN:
             ctx.violation('Fiber.gamma:user-gamma-ignored-when-effective-area-also-given',
                           f'{float(fib.gamma())!r} vs {fp["gamma"]!r} (effective_area {fp["effective_area"]!r})')
+    if disp_kind == 'slope':
+        # a fibre given by D and its slope S at the reference wavelength: D(lambda) = D + S (lambda - lambda_ref) is the
+        # definition of the dispersion slope, and beta2 = - lambda^2 D(lambda) / (2 pi c)
+        c0 = 299792458.0
+        lam_ref = fp.get('ref_wavelength') or c0 / fp.get('ref_frequency', c0 / 1550e-9)
+        for f, b2 in zip(freqs, beta2):
+            lam = c0 / f
+            want = -(lam ** 2) * (fp['dispersion'] + fp['dispersion_slope'] * (lam - lam_ref)) / (2 * math.pi * c0)
+            if not math.isclose(b2, want, rel_tol=1e-9):
+                ctx.violation('Fiber.beta2:differs-from-D-plus-slope-times-wavelength-offset',
+                              f'ch {f}: beta2 {b2!r}, D + S (lambda - lambda_ref) gives {want!r}')
+                break
     eta = gn_closed_form.eta_matrix(freqs, [chans[i]['baud'] for i in by_f], alpha, beta2, gamma, length)
     p_sorted = [powers[i] for i in by_f]
     ref = gn_closed_form.nli(eta, p_sorted)
